@@ -102,6 +102,9 @@ func d1(w *World, r *Report, x *ExecCtx, fns []*ssa.Function) {
 			key := w.FName(fn) + ":" + api
 			if why, ex := c01APIExceptions[key]; ex {
 				r.OK("D-1", key, "excepted: "+why, site(w, c))
+			} else if via, why := w.exceptedThroughCaller(fn, api); via != "" {
+				// the construct moved into a helper that only the excepted function reaches
+				r.OK("D-1", key, "excepted (helper reached only from "+via+"): "+why, site(w, c))
 			} else {
 				r.Violate("D-1", key, "a node-local / nondeterministic source is consulted while executing consensus calls", map[string]interface{}{"path": x.reachAll.Path(fn)}, site(w, c))
 			}
@@ -582,4 +585,28 @@ func d5(w *World, r *Report, x *ExecCtx, fns []*ssa.Function) {
 	if nf == 0 {
 		r.OK("D-5", "no-floats", "no floating-point value in any consensus-path function", "node/app.go")
 	}
+}
+
+// exceptedThroughCaller: fn is reached only from functions F for which "F:api" is
+// an exception (a helper extracted from an excepted function).
+func (w *World) exceptedThroughCaller(fn *ssa.Function, api string) (string, string) {
+	allowed := map[string]string{}
+	for k, why := range c01APIExceptions {
+		if strings.HasSuffix(k, ":"+api) {
+			allowed[strings.TrimSuffix(k, ":"+api)] = why
+		}
+	}
+	if len(allowed) == 0 {
+		return "", ""
+	}
+	via, ok := w.onlyReachedFrom(fn, allowed, 0, map[*ssa.Function]bool{})
+	if !ok {
+		return "", ""
+	}
+	for _, v := range strings.Split(via, ", ") {
+		if why, ok := allowed[v]; ok {
+			return via, why
+		}
+	}
+	return "", ""
 }
